@@ -84,6 +84,20 @@ def write_inputs(d, fmt, ref, est):
         open(rp, "w").write(rm.write_euroc(ns, Pr, Qr, extra_cols=9))
         open(ep, "w").write(rm.write_tum(Te, Pe, Qe))
         return ["euroc", rp, ep]
+    if fmt == "bag":
+        # one ROS1 bag with both topics, written with evo's own writer (C06 decides that writer/reader pair)
+        from rosbags.rosbag1 import Writer
+        from evo.core.trajectory import PoseTrajectory3D
+        from evo.tools import file_interface
+        bp = os.path.join(d, "in.bag")
+        w = Writer(bp)
+        w.open()
+        try:
+            file_interface.write_bag_trajectory(w, PoseTrajectory3D(positions_xyz=np.array(Pr), orientations_quat_wxyz=np.array(Qr), timestamps=np.array(Tr)), "/gt_pose", "map")
+            file_interface.write_bag_trajectory(w, PoseTrajectory3D(positions_xyz=np.array(Pe), orientations_quat_wxyz=np.array(Qe), timestamps=np.array(Te)), "/est_pose", "odom")
+        finally:
+            w.close()
+        return ["bag", bp, "/gt_pose", "/est_pose"]
     if fmt == "kitti":
         rp, ep = os.path.join(d, "ref.kitti"), os.path.join(d, "est.kitti")
         open(rp, "w").write(rm.write_kitti(rm.poses_from(Pr, Qr)))
